@@ -124,3 +124,17 @@ func verifSweepSeam(am *AuthManager) {
 	}()
 	am.cleanupExpiredCache()
 }
+
+// VerifRBACCachedFor reports what the two RBAC caches hold for a token right
+// now: the number of unexpired cached decisions and whether per-token RBAC data
+// is cached (coverage probe only: tells how often a mutation meets the caches in
+// a state where one holds the token and the other does not).
+func VerifRBACCachedFor(rm *RBACManager, tokenID int64, now time.Time) (decisions int, tokenData bool) {
+	for k, e := range rm.permCache {
+		if k.tokenID == tokenID && e != nil && now.Before(e.expiresAt) {
+			decisions++
+		}
+	}
+	_, tokenData = rm.tokenCache[tokenID]
+	return
+}
